@@ -350,6 +350,9 @@ func (d *Driver) Finish(minEvaluations, minDistinct int) int {
 	if len(notSeen) > 0 {
 		cov["known_findings_not_reproduced_this_run"] = notSeen
 	}
+	if len(d.violationSigs) > 0 {
+		cov["violation_signatures"] = d.violationSigs
+	}
 	for k, v := range d.extra {
 		cov[k] = v
 	}
@@ -388,6 +391,14 @@ func (d *Driver) Finish(minEvaluations, minDistinct int) int {
 		fmt.Printf("  events: %s\n", strings.Join(evs, " "))
 	}
 	if d.violations > 0 {
+		sigs := make([]string, 0, len(d.violationSigs))
+		for k := range d.violationSigs {
+			sigs = append(sigs, k)
+		}
+		sort.Strings(sigs)
+		for _, k := range sigs {
+			fmt.Printf("  violations with signature %q: %d\n", k, d.violationSigs[k])
+		}
 		return 1
 	}
 	if d.fatalNote != "" {
